@@ -89,7 +89,7 @@ mod wrap_block {
 
     fn rows() -> usize {
         let k: usize = kani::any();
-        kani::assume(k >= 1 && k <= 3);
+        kani::assume(k >= 1 && k <= 2);
         k
     }
 
@@ -172,7 +172,7 @@ mod wrap_block {
             }
             i += 1;
         }
-        kani::cover!(kl0 == 3 && kr0 == 1 && kl1 == 1 && kr1 == 3, "uneven wrap in both pairs, opposite directions");
+        kani::cover!(kl0 == 2 && kr0 == 1 && kl1 == 1 && kr1 == 2, "uneven wrap in both pairs, opposite directions");
         kani::cover!(kl0 == 1 && kr0 == 1 && kl1 == 1 && kr1 == 1, "nothing wraps");
         kani::cover!(true, "end of harness reached");
         std::mem::forget(new_alignment);
@@ -220,7 +220,7 @@ mod wrap_block {
         assert!(new_syntax[Left].len() == kl0 + kl1 && new_syntax[Right].len() == kr0 + kr1, "every fragment kept");
         assert!(new_diff[Left].len() == kl0 + kl1 && new_diff[Right].len() == kr0 + kr1, "every fragment kept (diff)");
         assert!(new_states[Left].len() == kl0 + kl1 && new_states[Right].len() == kr0 + kr1, "one state per row");
-        kani::cover!(kl0 == 2 && kl1 == 3 && kr0 == 1 && kr1 == 2, "a particular mixed shape");
+        kani::cover!(kl0 == 2 && kl1 == 2 && kr0 == 1 && kr1 == 2, "a particular mixed shape");
         kani::cover!(true, "end of harness reached");
         std::mem::forget(new_alignment);
         std::mem::forget(new_states);
